@@ -24,7 +24,7 @@ ALIAS = ['same', 'fullview', 'transposed', 'reversed', 'overlap', 'left-is-view'
 BIN = {'add': operator.add, 'sub': operator.sub, 'mul': operator.mul, 'div': operator.truediv, 'pow': operator.pow,
        'dot': algopy.dot, 'outer': algopy.outer, 'minimum': algopy.minimum, 'maximum': algopy.maximum}
 IOP = {'iadd': operator.iadd, 'isub': operator.isub, 'imul': operator.imul, 'idiv': operator.itruediv}
-REQUIRED = ['immutability:op', 'immutability:pb', 'immutability:tracer', 'alias:floordiv', 'retained-inputs'] + ['alias:' + k for k in BIN] + ['alias:' + k for k in IOP]
+REQUIRED = ['immutability:op', 'immutability:pb', 'immutability:tracer', 'alias:floordiv', 'alias:iouter', 'retained-inputs'] + ['alias:' + k for k in BIN] + ['alias:' + k for k in IOP]
 
 _mon = None
 
@@ -55,6 +55,8 @@ def cases(tier, seed):
                 out.append({'kind': 'alias', 'seed': case_seed('C14', seed, D, P, shape, op), 'params': {'D': D, 'P': P, 'shape': list(shape), 'op': op}})
         for k in range(6 if tier == 'quick' else 40):
             out.append({'kind': 'retained', 'seed': case_seed('C14', seed, 'retained', D, P, k), 'params': {'D': D, 'P': P}})
+        for k in range(3):
+            out.append({'kind': 'iouter', 'seed': case_seed('C14', seed, 'iouter', D, P, k), 'params': {'D': D, 'P': P, 'which': k}})
         for k in range(2):
             out.append({'kind': 'floordiv', 'seed': case_seed('C14', seed, 'floordiv', D, P, k), 'params': {'D': D, 'P': P}})
     return out
@@ -77,6 +79,31 @@ def _floordiv(ctx, p, rng):
     if not np.allclose(one.data[:D - 1], ref[:D - 1], atol=1e-12):
         ctx.violation('alias:floordiv:same-object:value', {'D': D, 'P': P}); return
     ctx.ok('alias:floordiv', ('floordiv', D, P))
+
+
+def _iouter(ctx, p, rng):
+    """UTPM.iouter(x, y, out): out += x y^T in place, with x and / or y a view of out (a rank-one update of a matrix by its own
+    column or row): same coefficients as with independent copies of the operands"""
+    D, P, which = p['D'], p['P'], p['which']
+    n = 3
+    A0 = gen.series_data(rng, D, P, (n, n), 'R', 'random', False, 0.5)
+    y0 = gen.series_data(rng, D, P, (n,), 'R', 'random', False, 0.5)
+    A = UTPM(A0.copy())
+    if which == 0:
+        x, y, xr, yr, ak = A[:, 0], UTPM(y0.copy()), UTPM(A0[:, :, :, 0].copy()), UTPM(y0.copy()), 'x-is-column-of-out'
+    elif which == 1:
+        x, y, xr, yr, ak = UTPM(y0.copy()), A[1, :], UTPM(y0.copy()), UTPM(A0[:, :, 1, :].copy()), 'y-is-row-of-out'
+    else:
+        x, y, xr, yr, ak = A[:, 2], A[0, :], UTPM(A0[:, :, :, 2].copy()), UTPM(A0[:, :, 0, :].copy()), 'both-views-of-out'
+    try:
+        ref = UTPM.iouter(xr, yr, UTPM(A0.copy()))
+        got = UTPM.iouter(x, y, A)
+    except Exception as e:
+        ctx.skip('unsupported:alias:iouter:%s' % ak); return
+    err = float(np.max(np.abs(A.data - ref.data)) / (np.max(np.abs(ref.data)) + 1e-300))
+    if not err <= TOL:
+        ctx.violation('alias:iouter:%s:value' % ak, {'alias': ak, 'D': D, 'P': P, 'err': err}); return
+    ctx.ok('alias:iouter', ('iouter', ak, D, P), noise=err)
 
 
 def _retained(ctx, p, rng):
@@ -137,6 +164,8 @@ def run_case(ctx, case):
             probe.S.suppress = False
     if case['kind'] == 'floordiv':
         return _floordiv(ctx, case['params'], gen.rng_of(case))
+    if case['kind'] == 'iouter':
+        return _iouter(ctx, case['params'], gen.rng_of(case))
     if case['kind'] == 'retained':
         return _retained(ctx, case['params'], gen.rng_of(case))
     p = case['params']
